@@ -96,7 +96,7 @@ def run(ctx: Check, tree: Tree) -> None:
         "pickle protocol 2+: object.__reduce_ex__ calls cls.__new__(cls, *obj.__getnewargs__()) and restores __dict__/slots state",
         "sympy.Basic.__getnewargs__ returns self.args",
     ]
-    check_shallow_hooks(ctx, tree, ["__getnewargs__"], need_complete=True)
+    ctx.section(check_shallow_hooks, ctx, tree, ["__getnewargs__"], need_complete=True)
 
     # ---- hand-written classes
     hw = handwritten_expr_classes(tree)
@@ -174,7 +174,7 @@ def run(ctx: Check, tree: Tree) -> None:
             f"{cls.name} defines no custom pickle hooks (default attrs/pickle state transfer of all fields)",
             f"custom hooks {sorted(own)} are outside the rule's grammar" if own else None,
         )
-    check_converters_idempotent(ctx, tree)
+    ctx.section(check_converters_idempotent, ctx, tree)
 
 
 def check_converters_idempotent(ctx: Check, tree: Tree) -> None:
